@@ -31,6 +31,10 @@ class _SocketHub:
     _CONNECT_SLEEP_TIME: float = 0.1
     _RECV_SLEEP_TIME: float = 0.1
 
+    # Source of the marks that tell socket objects apart. Not restarted when the hub is
+    # reset: a socket object from before the reset never carries the mark of a later one.
+    _marks = count(1)
+
     def __init__(self):
         """Used to connect all sockets (:class:`~.ThreadSocket`) used between threads"""
         # NOTE a socket gets tracked at two places, the _open_sockets and _remote_sockets
@@ -43,7 +47,6 @@ class _SocketHub:
         # A socket only takes back the mark it has seen when it got connected, not the
         # mark of a later socket that uses the same key.
         self._remote_sockets: Dict[thread_socket.socket.T_ThreadSocketKey, int] = {}
-        self._marks = count(1)
         # Per key: mark of the socket object that the key currently belongs to. Another
         # object with the same key (an earlier socket that is released late, a socket
         # whose connect timed out) does not disconnect it.
